@@ -91,8 +91,11 @@ def run_case(case, obs):
         reqs_by_client.setdefault(q["client"], []).append(q)
     behind = False
     errors_seen = False
+    behind_global_index = False
     for ci in range(c):
-        gid = goff + ci
+        gid = r["client_ids"][ci]  # (the client that runs it: differs from the global client index goff + ci in an over-committed element)
+        if gid != goff + ci:
+            behind_global_index = True
         reqs = reqs_by_client.get(ci, [])
         smp = samples_by_client.get(gid, [])
         handed = r["handed"].get(ci, [])
@@ -128,6 +131,7 @@ def run_case(case, obs):
                     obs.check(_eq(s.latency, s.service_time), "latency-unthrottled", f"{tag}: latency {s.latency} != service_time {s.service_time}")
                 obs.check(int(s.sample_type) == h["sample_type"], "sample-type", f"{tag}: sample type {s.sample_type} != handed {h['sample_type']}")
             obs.check(s.client_id == gid, "client-id", f"{tag}: client id {s.client_id} != {gid}")
+            obs.check(q["es_client_id"] == gid, "client-connection", f"{tag}: executed on the connection of client {q['es_client_id']}, allocated to client {gid}")
             obs.check(s.task == r["task"], "task", f"{tag}: task {s.task}")
             ops, unit, success = expected_ops(spec)
             obs.check(s.total_ops == ops and s.total_ops_unit == unit, "ops", f"{tag}: ops {s.total_ops} {s.total_ops_unit} != {ops} {unit} ({spec['outcome']}/{spec['shape']})")
@@ -154,6 +158,8 @@ def run_case(case, obs):
         obs.cls("error-outcome")
     if c >= 2:
         obs.cls("multi-client")
+    if behind_global_index and r["samples"]:
+        obs.cls("client-id-differs-from-global-client-index")
     if any(x.get("nested") and x["outcome"] not in ("ok", "fail-dict") for x in case["requests"]) and errors_seen:
         obs.cls("failing-sub-request-in-nested-context")
     if case.get("ramp_up") and (goff + c - 1) > 0 and r["samples"]:
